@@ -284,3 +284,87 @@ proof fn lemma_sumlen_ge(lines: Seq<&str>, n: int)
 {
 	if n > 0 { lemma_sumlen_ge(lines, n - 1); }
 }
+
+// ---- C14: words: [a-zA-Z_][a-zA-Z0-9_]* is a reserved word, the placeholder `_`, a builtin (followed by `!`) or an identifier ----
+// the 34 reserved words and `_` (README/features: fn var const if goto loop else cast as true false, the primitive type names,
+// import pub extern struct word8..word128)
+pub open spec fn kw_token(s: Seq<char>) -> Option<Token> {
+	if s == "fn"@ { Some(Token::Fn) }
+	else if s == "var"@ { Some(Token::Var) }
+	else if s == "const"@ { Some(Token::Const) }
+	else if s == "if"@ { Some(Token::If) }
+	else if s == "goto"@ { Some(Token::Goto) }
+	else if s == "loop"@ { Some(Token::Loop) }
+	else if s == "else"@ { Some(Token::Else) }
+	else if s == "cast"@ { Some(Token::Cast) }
+	else if s == "as"@ { Some(Token::As) }
+	else if s == "true"@ { Some(Token::Bool(true)) }
+	else if s == "false"@ { Some(Token::Bool(false)) }
+	else if s == "void"@ { Some(Token::Type(ValueType::Void)) }
+	else if s == "i8"@ { Some(Token::Type(ValueType::Int8)) }
+	else if s == "i16"@ { Some(Token::Type(ValueType::Int16)) }
+	else if s == "i32"@ { Some(Token::Type(ValueType::Int32)) }
+	else if s == "i64"@ { Some(Token::Type(ValueType::Int64)) }
+	else if s == "i128"@ { Some(Token::Type(ValueType::Int128)) }
+	else if s == "u8"@ { Some(Token::Type(ValueType::Uint8)) }
+	else if s == "u16"@ { Some(Token::Type(ValueType::Uint16)) }
+	else if s == "u32"@ { Some(Token::Type(ValueType::Uint32)) }
+	else if s == "u64"@ { Some(Token::Type(ValueType::Uint64)) }
+	else if s == "u128"@ { Some(Token::Type(ValueType::Uint128)) }
+	else if s == "usize"@ { Some(Token::Type(ValueType::Usize)) }
+	else if s == "char8"@ { Some(Token::Type(ValueType::Char8)) }
+	else if s == "bool"@ { Some(Token::Type(ValueType::Bool)) }
+	else if s == "import"@ { Some(Token::Import) }
+	else if s == "pub"@ { Some(Token::Pub) }
+	else if s == "extern"@ { Some(Token::Extern) }
+	else if s == "struct"@ { Some(Token::Struct) }
+	else if s == "word8"@ { Some(Token::Word8) }
+	else if s == "word16"@ { Some(Token::Word16) }
+	else if s == "word32"@ { Some(Token::Word32) }
+	else if s == "word64"@ { Some(Token::Word64) }
+	else if s == "word128"@ { Some(Token::Word128) }
+	else if s == "_"@ { Some(Token::Placeholder) }
+	else { None }
+}
+pub open spec fn ident_start(x: char) -> bool { (97 <= x as u32 <= 122) || (65 <= x as u32 <= 90) || x as u32 == 95 }
+// the token starting at lo (an identifier start), and where it ends
+pub open spec fn word_ok(result: Result<Token, Error>, s: Seq<char>, lo: int, pos: int) -> bool {
+	let n = 1 + idrun(s, lo + 1);
+	let text = s.subrange(lo, lo + n);
+	if kw_token(text) is Some { result == Ok::<Token, Error>(kw_token(text)->0) && pos == lo + n }
+	else if lo + n < s.len() && s[lo + n] == '!' { result is Ok && result->Ok_0 is Builtin && result->Ok_0->Builtin_0@ == text && pos == lo + n + 1 }
+	else { result is Ok && result->Ok_0 is Identifier && result->Ok_0->Identifier_0@ == text && pos == lo + n }
+}
+
+// ---- C14: punctuation: longest match of the one- and two-character tokens of the language ------------
+pub open spec fn nxt(s: Seq<char>, lo: int, c: char) -> bool { lo + 1 < s.len() && s[lo + 1] == c }
+pub open spec fn punct_two(s: Seq<char>, lo: int) -> bool {
+	let c = s[lo];
+	(c == '<' && (nxt(s, lo, '<') || nxt(s, lo, '='))) || (c == '>' && (nxt(s, lo, '>') || nxt(s, lo, '='))) || (c == '|' && nxt(s, lo, ':'))
+	|| (c == '!' && nxt(s, lo, '=')) || (c == '.' && nxt(s, lo, '.')) || (c == '=' && nxt(s, lo, '=')) || (c == '-' && nxt(s, lo, '>'))
+}
+// None: not punctuation, or the start of a `//` comment
+pub open spec fn punct_tok(s: Seq<char>, lo: int) -> Option<Token> {
+	let c = s[lo];
+	if c == '(' { Some(Token::ParenLeft) } else if c == ')' { Some(Token::ParenRight) }
+	else if c == '{' { Some(Token::BraceLeft) } else if c == '}' { Some(Token::BraceRight) }
+	else if c == '[' { Some(Token::BracketLeft) } else if c == ']' { Some(Token::BracketRight) }
+	else if c == '<' { if nxt(s, lo, '<') { Some(Token::ShiftLeft) } else if nxt(s, lo, '=') { Some(Token::IsLE) } else { Some(Token::AngleLeft) } }
+	else if c == '>' { if nxt(s, lo, '>') { Some(Token::ShiftRight) } else if nxt(s, lo, '=') { Some(Token::IsGE) } else { Some(Token::AngleRight) } }
+	else if c == '|' { if nxt(s, lo, ':') { Some(Token::PipeForType) } else { Some(Token::Pipe) } }
+	else if c == '&' { Some(Token::Ampersand) } else if c == '^' { Some(Token::Caret) }
+	else if c == '!' { if nxt(s, lo, '=') { Some(Token::DoesNotEqual) } else { Some(Token::Exclamation) } }
+	else if c == '+' { Some(Token::Plus) } else if c == '*' { Some(Token::Times) } else if c == '%' { Some(Token::Modulo) }
+	else if c == ':' { Some(Token::Colon) } else if c == ';' { Some(Token::Semicolon) }
+	else if c == '.' { if nxt(s, lo, '.') { Some(Token::Dots) } else { Some(Token::Dot) } }
+	else if c == ',' { Some(Token::Comma) }
+	else if c == '=' { if nxt(s, lo, '=') { Some(Token::Equals) } else { Some(Token::Assignment) } }
+	else if c == '-' { if nxt(s, lo, '>') { Some(Token::Arrow) } else { Some(Token::Minus) } }
+	else if c == '/' { if nxt(s, lo, '/') { None } else { Some(Token::Divide) } }
+	else { None }
+}
+pub open spec fn other_char(c: char) -> bool {
+	!(ident_start(c) || 48 <= c as u32 <= 57 || c == '"' || c == '\'' || c == ' ' || c == '\t' || c == '/'
+	|| c == '(' || c == ')' || c == '{' || c == '}' || c == '[' || c == ']' || c == '<' || c == '>' || c == '|' || c == '&' || c == '^' || c == '!'
+	|| c == '+' || c == '*' || c == '%' || c == ':' || c == ';' || c == '.' || c == ',' || c == '=' || c == '-')
+}
